@@ -191,6 +191,39 @@ def make_records(jobs, fres, rres, model):
     return records
 
 
+def search_more(cdir, seed, judge, log=print, budget_s=240, rounds=8):
+    """Called only when an obligation or the correspondence is already broken and the ordinary
+    stream produced no failing input: more rounds of the fast stage (other seeds, more
+    conflict-focused cases), until `judge(rec)` names a violation or the budget is used up."""
+    t0 = time.time()
+    tried = 0
+    for k in range(1, rounds + 1):
+        if time.time() - t0 > budget_s:
+            break
+        T = dict(fast_n=5000, fast_nadv=0, fast_cfgs=3)
+        cf = os.path.join(cdir, "search-%d-%d.json" % (seed, k))
+        try:
+            with build.Lock("lock-search"):
+                if os.path.exists(cf):
+                    res = json.load(open(cf))
+                else:
+                    res = _run_fast(cdir, seed * 1000 + k, T, log, conflict_share=0.6, with_corpus=False)
+                    n = len(res.get("records") or [])
+                    # keep what a judge can object to: records with oracle diagnostics, crashes, panics
+                    res["records"] = [r for r in res.get("records") or [] if r.get("checks") or r.get("crash") or
+                                      any(v.get("panic") or v.get("err") for v in (r.get("real") or {}).values())]
+                    res["n_inputs"] = n
+                    json.dump(res, open(cf, "w"))
+        except Exception as ex:
+            return None, None, {"error": repr(ex)}
+        tried += res.get("n_inputs", 0)
+        for rec in res.get("records") or []:
+            v = judge(rec)
+            if v:
+                return rec, res, {"rounds": k, "inputs": tried, "s": round(time.time() - t0, 1), "what": v}
+    return None, None, {"rounds": rounds, "inputs": tried, "s": round(time.time() - t0, 1)}
+
+
 FASTBASE = """package fastbase
 
 import (
@@ -201,7 +234,7 @@ type I interface{ M() }
 """
 
 
-def _run_fast(cdir, seed, T, log):
+def _run_fast(cdir, seed, T, log, conflict_share=0.4, with_corpus=True):
     """Fast stage.  The harness built with the overlay hooks parses and type-checks the source
     package in-process and hands it to the real moq (hook VerifMocker): no `go list`, a few
     milliseconds per job.  Same facts -> Lean driver -> byte comparison, same oracles (without
@@ -218,8 +251,8 @@ def _run_fast(cdir, seed, T, log):
         open(os.path.join(root, "fastbase", "b.go"), "w").write(
             FASTBASE % "".join('\t_ "%s"\n' % p for p, _ in gen.STD))
         env = dict(pool.GOENV, VERIF_EXPORTS=export_list(root))   # library + std only: before the cases are written
-        cases = gen.make_cases(rnd, root, T["fast_n"], adversarial=False, prefix="fsrc", conflict_share=0.4)
-        cases += gen.make_cases(rnd, root, T["fast_nadv"], adversarial=True, prefix="fadv", conflict_share=0.4)
+        cases = gen.make_cases(rnd, root, T["fast_n"], adversarial=False, prefix="fsrc", conflict_share=conflict_share)
+        cases += gen.make_cases(rnd, root, T["fast_nadv"], adversarial=True, prefix="fadv", conflict_share=conflict_share)
         jobs = []
         for c in cases:
             for k, cfg in enumerate(gen.configs_for(rnd, c, T["fast_cfgs"])):
@@ -227,7 +260,7 @@ def _run_fast(cdir, seed, T, log):
                 cfg["adv"] = c["adv"]
                 jobs.append(cfg)
         # the corpus once more, for the oracles only this stage has (the fixed point of C15)
-        for j in copy_corpus(root):
+        for j in (copy_corpus(root) if with_corpus else []):
             j = dict(j)
             j["id"] = "fast/corpus/" + j["dir"] + "#" + ",".join(j["args"]) + "#" + j.get("pkg", "")
             jobs.append(j)
@@ -301,9 +334,10 @@ def asserted(rec, diag):
     if diag.startswith("with the single argument") or diag.startswith("solo generation of"):
         return m.get("wf") == "true"
     if "does not reproduce itself" in diag or "own output in the package fails" in diag:
-        # C15's fixed point: the second run harvests the first output's import names; they are the
-        # source's own unless conflict resolution invented some (F-26)
-        return m.get("quals.stable", "true") == "true"
+        # C15's fixed point: the second run harvests the first output's import names; asserted where
+        # the model of the pristine naming core, run a second time with those names harvested,
+        # reproduces its own first output (it does not on the F-26 class)
+        return m.get("fixpoint", m.get("quals.stable", "true")) == "true"
     if "in the interface is generated as" in diag:
         # C13 "kept verbatim whenever it collides with nothing": judged against the final import
         # block, which is what the name met only if no import was re-aliased during the run
